@@ -51,6 +51,7 @@ EXCLUSIONS = {
                                 'is representable in the destination [finding operand-value-after-implicit-conversion]',
     'single-alias': 'at most one alias pointer per variable [finding two-aliases-stale-value]',
     'ternary-one-const-arm': 'the arms of ?: are both constant or both non-constant [finding ternary-partial-possible]',
+    'break-cond-nonconst': 'a break is never guarded by a constant condition [finding break-in-do-while-escapes-if]',
     'alias-self-read': 'the value stored through an alias pointer never reads the aliased variable [finding alias-ternary]',
 }
 
@@ -752,7 +753,11 @@ class Gen:
             self.block(e2, out, indent + 1, r.randint(1, 2), loopdepth + 1, fn_ret)
             if r.random() < 0.3:
                 self.feat('break')
-                self.emit(out, indent + 1, ['if (', self.cond(e2), ') {'])
+                bc = self.cond(e2)
+                if self.cal and bc.const:
+                    # exclusion break-cond-nonconst: a break is never guarded by a constant condition
+                    bc = self.mk_bin('>', N('var', cv, pid=self.pid(), t='int'), self.mk_lit(r.randint(0, 3)))
+                self.emit(out, indent + 1, ['if (', bc, ') {'])
                 self.emit(out, indent + 2, ['break;'])
                 self.emit(out, indent + 1, ['}'])
             self.emit(out, indent + 1, ['%s++;' % cv])
